@@ -330,6 +330,50 @@ def _length_guarded(node):
     return False
 
 
+def format_line_rule(ctx, sym, rule):
+    """ExpandedTraceback.format_line executed abstractly on traceback entries (with/without columns, multi-line, pedal's
+    own frames) under each interpreter-version switch: rendering never raises while a failure is being recorded."""
+    from .. import symexec
+    from ..fdeval import Obj
+    # the traceback text: format_line executed abstractly on traceback entries with and without column information
+    # (CPython documents FrameSummary.colno/end_colno/end_lineno as Optional: -X no_debug_ranges, PYTHONNODEBUGRANGES,
+    # code objects without positions) under each interpreter-version switch pedal tests
+    ux = ctx.repo.module('pedal.utilities.exceptions')
+    fl = ux.func('ExpandedTraceback.format_line')
+    ctx.analysed_function(ux, fl)
+    versions = {'3.13': dict(IS_AT_LEAST_PYTHON_313=True, IS_AT_LEAST_PYTHON_311=True, IS_AT_LEAST_PYTHON_310=True),
+                '3.11/3.12': dict(IS_AT_LEAST_PYTHON_313=False, IS_AT_LEAST_PYTHON_311=True, IS_AT_LEAST_PYTHON_310=True),
+                '3.10': dict(IS_AT_LEAST_PYTHON_313=False, IS_AT_LEAST_PYTHON_311=False, IS_AT_LEAST_PYTHON_310=True),
+                '3.9': dict(IS_AT_LEAST_PYTHON_313=False, IS_AT_LEAST_PYTHON_311=False, IS_AT_LEAST_PYTHON_310=False)}
+    for vname, flags in versions.items():
+        for fname, cols in (('with columns', dict(colno=4, end_colno=9, end_lineno=3)),
+                            ('without columns', dict(colno=None, end_colno=None, end_lineno=None)),
+                            ('multi-line expression', dict(colno=4, end_colno=2, end_lineno=5)),
+                            # full_traceback shows pedal's own frames: a two-line call deep inside a long pedal file,
+                            # while the student's file has six lines
+                            ("pedal's own multi-line frame", dict(colno=15, end_colno=40, end_lineno=160, lineno=159,
+                                                                  filename='/site-packages/pedal/sandbox/sandbox.py')),
+                            ('multi-line expression at the end of the file', dict(colno=4, end_colno=2, lineno=6,
+                                                                                  end_lineno=8))):
+            cols = dict(cols)
+            frame = Obj('FrameSummary', lineno=cols.pop('lineno', 3), line='print(a / b)', _line='    print(a / b)',
+                        _lines='    print(a / b)', filename=cols.pop('filename', 'answer.py'), name='<module>', **cols)
+            fmt = Obj('formatter')
+            symexec.method(fmt, 'python_code', lambda *a, **k: 'formatted line')
+            student_lines = ['a = 1', 'b = 0', '    print(a / b)', '        ', ')', 'done()']
+            me = symexec.self_obj(ux, 'ExpandedTraceback', line_offsets={}, original_code_lines=list(student_lines),
+                                  student_files={'answer.py': list(student_lines)}, full_traceback=True)
+            fd = symexec.new_fd(sym, ux, calls={'Location': lambda *a, **k: Obj('Location', args=a)},
+                                extra=dict(flags))
+            got, raised = symexec.run(fd, fl, [fmt, frame], bound_self=me, what='ExpandedTraceback.format_line')
+            ctx.check(raised is None, rule, 'format_line[%s,%s]' % (vname, fname), ux, fl,
+                      "rendering a traceback entry %s under the Python %s switches raises %s (%s) while the failure is "
+                      "being recorded" % (fname, vname, raised.kind if raised is not None else '',
+                                          raised.detail if raised is not None else ''),
+                      "PYTHONNODEBUGRANGES=1 (or python -X no_debug_ranges): every student runtime error, even `a / b`, "
+                      "makes run() raise TypeError into the instructor script")
+
+
 def r4_recording_robust(ctx, sym):
     ctx.rule('R4', "taint: the student's exception object is followed from _capture_exception through resolved "
                    "callees (parameter passing, 4 levels); every str/repr/format/f-string/%/.format conversion of it "
@@ -514,34 +558,7 @@ def r4_recording_robust(ctx, sym):
                       raised.kind if raised is not None else 'unexpected result')),
               "class OutOfStock(Exception):\n    def __str__(self): return 'only ' + 3\nraise OutOfStock()  -> "
               "run() raises TypeError into the instructor script instead of returning")
-    # the traceback text: format_line executed abstractly on traceback entries with and without column information
-    # (CPython documents FrameSummary.colno/end_colno/end_lineno as Optional: -X no_debug_ranges, PYTHONNODEBUGRANGES,
-    # code objects without positions) under each interpreter-version switch pedal tests
-    ux = ctx.repo.module('pedal.utilities.exceptions')
-    fl = ux.func('ExpandedTraceback.format_line')
-    ctx.analysed_function(ux, fl)
-    versions = {'3.13': dict(IS_AT_LEAST_PYTHON_313=True, IS_AT_LEAST_PYTHON_311=True, IS_AT_LEAST_PYTHON_310=True),
-                '3.11/3.12': dict(IS_AT_LEAST_PYTHON_313=False, IS_AT_LEAST_PYTHON_311=True, IS_AT_LEAST_PYTHON_310=True),
-                '3.10': dict(IS_AT_LEAST_PYTHON_313=False, IS_AT_LEAST_PYTHON_311=False, IS_AT_LEAST_PYTHON_310=True),
-                '3.9': dict(IS_AT_LEAST_PYTHON_313=False, IS_AT_LEAST_PYTHON_311=False, IS_AT_LEAST_PYTHON_310=False)}
-    for vname, flags in versions.items():
-        for fname, cols in (('with columns', dict(colno=4, end_colno=9, end_lineno=3)),
-                            ('without columns', dict(colno=None, end_colno=None, end_lineno=None)),
-                            ('multi-line expression', dict(colno=4, end_colno=2, end_lineno=5))):
-            frame = Obj('FrameSummary', lineno=3, line='print(a / b)', _line='    print(a / b)', _lines='    print(a / b)',
-                        filename='answer.py', name='<module>', **cols)
-            fmt = Obj('formatter')
-            symexec.method(fmt, 'python_code', lambda *a, **k: 'formatted line')
-            me = symexec.self_obj(ux, 'ExpandedTraceback')
-            fd = symexec.new_fd(sym, ux, calls={'Location': lambda *a, **k: Obj('Location', args=a)},
-                                extra=dict(flags))
-            got, raised = symexec.run(fd, fl, [fmt, frame], bound_self=me, what='ExpandedTraceback.format_line')
-            ctx.check(raised is None, 'R4', 'format_line[%s,%s]' % (vname, fname), ux, fl,
-                      "rendering a traceback entry %s under the Python %s switches raises %s (%s) while the failure is "
-                      "being recorded" % (fname, vname, raised.kind if raised is not None else '',
-                                          raised.detail if raised is not None else ''),
-                      "PYTHONNODEBUGRANGES=1 (or python -X no_debug_ranges): every student runtime error, even `a / b`, "
-                      "makes run() raise TypeError into the instructor script")
+    format_line_rule(ctx, sym, 'R4')
     ctx.floor('R4', 'functions in the taint closure', n_fns, 3)
     # (no floor on the number of conversion sites: the constructor is executed above for every message text, a failing
     #  __str__ included, wherever the conversion itself lives)
